@@ -7,3 +7,6 @@ package vgis3
 
 // VerifC33GenerateUUID returns what Upload appends to the configured prefix.
 func VerifC33GenerateUUID() string { return generateUUID() }
+
+// VerifC33FormatUUID is the pure formatting step of the generator.
+func VerifC33FormatUUID(b [16]byte) string { return formatUUID(b) }
